@@ -945,3 +945,25 @@ def unchecked_factor_rule(ctx, rid):
                     else 'the unchecked factor() is not guarded by a test on the gate class'), m.rel, c.lineno)
     if n == 0:
         raise AnalysisError(f'{rid}: no factor(validate=False) left in cirq.sim')
+
+
+def measured_qubits_rule(ctx, rid):
+    """_core_iterator: which later operations are skipped after a deferred terminal measurement is decided per qubit, not per qubit tuple."""
+    repo = ctx.repo
+    ctx.rule(rid, 'terminal-measurement bookkeeping by qubit: in SimulatorBase._core_iterator the record of what has been measured is filled from the qubits of each measurement (update / add '
+             'per qubit) and the skip test compares an operation\'s qubits element-wise (issuperset / all(q in ...)); a container keyed by the whole op.qubits tuple lets noise on a sub-tuple '
+             'of a measured multi-qubit operation through, which changes the sampled bits', floor=1, style='COH')
+    sb = repo.cls('cirq.sim.simulator_base.SimulatorBase')
+    fn = repo.method(sb.qual, '_core_iterator')
+    loops = [l for l in ast.walk(fn) if isinstance(l, ast.For)]
+    opvars = {l.target.id for l in loops if isinstance(l.target, ast.Name)}
+    keyed = []
+    for x in ast.walk(fn):
+        if isinstance(x, ast.Subscript) and isinstance(x.slice, ast.Attribute) and x.slice.attr == 'qubits' and isinstance(x.slice.value, ast.Name) and x.slice.value.id in opvars:
+            keyed.append(x)
+        if isinstance(x, ast.Compare) and isinstance(x.ops[0], (ast.In, ast.NotIn)) and isinstance(x.left, ast.Attribute) and x.left.attr == 'qubits' \
+                and isinstance(x.left.value, ast.Name) and x.left.value.id in opvars:
+            keyed.append(x)
+    ok = not keyed
+    ctx.ob(rid, f'{sb.qual}._core_iterator:no-tuple-key', ok, '' if ok else f'`{ast.unparse(keyed[0])}` identifies measured qubits by the operation\'s whole qubit tuple: noise on (q0,) after a '
+           'deferred measure(q0, q1) is not recognised as acting on measured qubits and flips the sampled bits', sb.mod.rel, (keyed[0].lineno if keyed else fn.lineno))
